@@ -2,7 +2,7 @@
 // regenerates coq/theories/Convert/Generated_PurlTypes.v with
 //
 //   - declared_types  : the `Type*` string constants declared in <repo>/purl/purl.go
-//   - valid_type_keys : the keys of the map literal inside func validType of the same file
+//   - valid_type_keys : the types purl.FromString of the linked repository accepts (observed by probing)
 //   - emitted_refs    : every reference `purl.Type*` in non-test sources under <repo>/extractor
 //     (with the file and the enclosing function), i.e. the purl types built-in extractors
 //     can put into the package URLs they emit
@@ -26,6 +26,8 @@ import (
 	"strconv"
 	"strings"
 
+	"github.com/google/osv-scalibr/purl"
+
 	cf "verifharness/internal/coqfmt"
 )
 
@@ -41,7 +43,14 @@ type ref struct {
 	Func  string `json:"func"`
 }
 
+type probeResult struct {
+	Type     string `json:"type"`
+	Accepted bool   `json:"accepted"`
+	Error    string `json:"error,omitempty"`
+}
+
 type output struct {
+	Probes     []probeResult `json:"fromstring_probes"`
 	ProtoMeta  *protoMeta  `json:"proto_meta,omitempty"`
 	Declared   []constDecl `json:"declared"`
 	ValidKeys  []string    `json:"valid_keys"`
@@ -99,123 +108,43 @@ func main() {
 			}
 		}
 	}
-	// validType: the keys of the (first) map composite literal in its body, and whether the
-	// argument is lower-cased before the lookup.
-	found := false
-	for _, d := range pf.Decls {
-		fd, ok := d.(*ast.FuncDecl)
-		if !ok || fd.Name.Name != "validType" || fd.Recv != nil {
+	// Which types the library's own parser accepts is OBSERVED, not read off the source: purl.FromString of the
+	// repository this binary is linked against is run on every declared constant value, on its upper-cased form and on
+	// purl-spec types the file does not declare. (How validType stores its table -- map, switch, sorted slice -- is the
+	// implementation's business.)
+	probe := func(t string) (bool, string) {
+		var last string
+		for _, form := range []string{"pkg:%s/n@1", "pkg:%s/ns/n@1", "pkg:%s/ns/n@1?channel=c"} {
+			_, err := purl.FromString(fmt.Sprintf(form, t))
+			if err == nil {
+				return true, ""
+			}
+			last = err.Error()
+		}
+		return false, last
+	}
+	o.ValidKeys = []string{}
+	o.ValidLower = true
+	seenKey := map[string]bool{}
+	extra := []string{"gradle", "huggingface", "mlflow", "bitnami", "qpkg", "luarocks", "swid", "julia", "otp", "vscode", "notatype", "x"}
+	var cands []string
+	for _, c := range o.Declared {
+		cands = append(cands, c.Value)
+	}
+	for _, t := range append(cands, extra...) {
+		ok, why := probe(t)
+		o.Probes = append(o.Probes, probeResult{t, ok, why})
+		if !ok {
 			continue
 		}
-		found = true
-		ast.Inspect(fd.Body, func(n ast.Node) bool {
-			switch x := n.(type) {
-			case *ast.CompositeLit:
-				if _, isMap := x.Type.(*ast.MapType); !isMap || o.ValidKeys != nil {
-					return true
-				}
-				o.ValidKeys = []string{}
-				for _, e := range x.Elts {
-					kv, ok := e.(*ast.KeyValueExpr)
-					if !ok {
-						continue
-					}
-					if id, ok := kv.Value.(*ast.Ident); ok && id.Name == "false" {
-						// the function tests presence (`_, ok := types[t]`), so a false value still counts
-					}
-					switch k := kv.Key.(type) {
-					case *ast.Ident:
-						v, ok := consts[k.Name]
-						if !ok {
-							fatal("validType key %s is not a string constant of purl.go", k.Name)
-						}
-						o.ValidKeys = append(o.ValidKeys, v)
-					case *ast.BasicLit:
-						v, err := strconv.Unquote(k.Value)
-						if err != nil {
-							fatal("validType key %s", k.Value)
-						}
-						o.ValidKeys = append(o.ValidKeys, v)
-					default:
-						fatal("validType: unsupported key expression at %s", fset.Position(kv.Pos()))
-					}
-				}
-			case *ast.CallExpr:
-				if se, ok := x.Fun.(*ast.SelectorExpr); ok {
-					if id, ok := se.X.(*ast.Ident); ok && id.Name == "strings" && se.Sel.Name == "ToLower" {
-						o.ValidLower = true
-					}
-				}
-			}
-			return true
-		})
-	}
-	if found && o.ValidKeys == nil {
-		// the table may live at package level: follow the identifiers validType indexes
-		var names []string
-		for _, d := range pf.Decls {
-			if fd, ok := d.(*ast.FuncDecl); ok && fd.Name.Name == "validType" && fd.Recv == nil {
-				ast.Inspect(fd.Body, func(n ast.Node) bool {
-					if ix, ok := n.(*ast.IndexExpr); ok {
-						if id, ok := ix.X.(*ast.Ident); ok {
-							names = append(names, id.Name)
-						}
-					}
-					return true
-				})
-			}
+		if !seenKey[strings.ToLower(t)] {
+			seenKey[strings.ToLower(t)] = true
+			o.ValidKeys = append(o.ValidKeys, strings.ToLower(t))
 		}
-		for _, d := range pf.Decls {
-			gd, ok := d.(*ast.GenDecl)
-			if !ok || gd.Tok != token.VAR {
-				continue
-			}
-			for _, sp := range gd.Specs {
-				vs := sp.(*ast.ValueSpec)
-				for i, n := range vs.Names {
-					use := false
-					for _, nm := range names {
-						use = use || nm == n.Name
-					}
-					if !use || i >= len(vs.Values) || o.ValidKeys != nil {
-						continue
-					}
-					cl, ok := vs.Values[i].(*ast.CompositeLit)
-					if !ok {
-						continue
-					}
-					if _, isMap := cl.Type.(*ast.MapType); !isMap {
-						continue
-					}
-					o.ValidKeys = []string{}
-					for _, e := range cl.Elts {
-						kv, ok := e.(*ast.KeyValueExpr)
-						if !ok {
-							continue
-						}
-						switch k := kv.Key.(type) {
-						case *ast.Ident:
-							v, ok := consts[k.Name]
-							if !ok {
-								fatal("validType table key %s is not a string constant of purl.go", k.Name)
-							}
-							o.ValidKeys = append(o.ValidKeys, v)
-						case *ast.BasicLit:
-							v, err := strconv.Unquote(k.Value)
-							if err != nil {
-								fatal("validType table key %s", k.Value)
-							}
-							o.ValidKeys = append(o.ValidKeys, v)
-						default:
-							fatal("validType table: unsupported key expression at %s", fset.Position(kv.Pos()))
-						}
-					}
-				}
-			}
+		// case-insensitivity: the upper-cased spelling of an accepted type must be accepted as well
+		if up, _ := probe(strings.ToUpper(t)); !up {
+			o.ValidLower = false
 		}
-	}
-	if !found || o.ValidKeys == nil {
-		fatal("func validType with a map literal not found in purl/purl.go (translator needs updating)")
 	}
 
 	// references under extractor/
@@ -304,7 +233,7 @@ func main() {
 		items = append(items, fmt.Sprintf("(* %s = %q *) %s", c.Ident, c.Value, cf.Str(c.Value)))
 	}
 	fmt.Fprintf(&sb, "Definition declared_types : list (list N) :=\n [ %s ].\n\n", strings.Join(items, ";\n   "))
-	sb.WriteString("(* keys of the map literal in func validType *)\n")
+	sb.WriteString("(* types purl.FromString accepted when probed (pkg:<type>/n@1 ...): declared constants and purl-spec extras *)\n")
 	items = nil
 	for _, k := range o.ValidKeys {
 		items = append(items, fmt.Sprintf("(* %q *) %s", k, cf.Str(k)))
@@ -314,7 +243,7 @@ func main() {
 	} else {
 		fmt.Fprintf(&sb, "Definition valid_type_keys : list (list N) :=\n [ %s ].\n\n", strings.Join(items, ";\n   "))
 	}
-	fmt.Fprintf(&sb, "(* validType lower-cases its argument before the lookup *)\nDefinition valid_type_lowercases : bool := %s.\n\n", cf.Bool(o.ValidLower))
+	fmt.Fprintf(&sb, "(* observed: the upper-cased spelling of every accepted type is accepted too *)\nDefinition valid_type_lowercases : bool := %s.\n\n", cf.Bool(o.ValidLower))
 	sb.WriteString("(* purl types referenced as purl.TypeXxx by non-test sources under extractor/ *)\n")
 	items = nil
 	for _, e := range o.Emitted {
